@@ -499,6 +499,73 @@ fn run_case(line: &str, listener: &TcpListener) -> String {
     out
 }
 
+// ------------------------------------------------------------------------------------------
+// join_all: "n;poll|poll|..." ; poll = "i=v,i=v" = inputs that complete before that poll (v in t,f,x)
+// trace: per poll "p<i>+|- ... <result>", result = "-" (Pending) or "=" values in output order
+// ------------------------------------------------------------------------------------------
+struct ScriptedInput {
+    i: usize,
+    st: Arc<std::sync::Mutex<(Vec<Option<char>>, Vec<String>)>>,
+}
+
+impl Future for ScriptedInput {
+    type Output = char;
+
+    fn poll(self: Pin<&mut Self>, _: &mut Context<'_>) -> Poll<char> {
+        let mut st = self.st.lock().unwrap();
+        match st.0[self.i] {
+            Some(v) => {
+                st.1.push(format!("p{}+", self.i));
+                Poll::Ready(v)
+            }
+            None => {
+                st.1.push(format!("p{}-", self.i));
+                Poll::Pending
+            }
+        }
+    }
+}
+
+fn join_case(line: &str) -> String {
+    let Some((n, polls)) = line.split_once(';') else { return "BADCASE".into() };
+    let Ok(n) = n.parse::<usize>() else { return "BADCASE".into() };
+    if n > 64 {
+        return "BADCASE".into();
+    }
+    let st = Arc::new(std::sync::Mutex::new((vec![None; n], Vec::new())));
+    let futs: Vec<futures_core::future::BoxFuture<'static, char>> = (0..n)
+        .map(|i| Box::pin(ScriptedInput { i, st: st.clone() }) as _)
+        .collect();
+    let mut jf = verif::join_all_boxed(futs);
+    let waker = Waker::from(Arc::new(Noop));
+    let mut cx = Context::from_waker(&waker);
+    let mut segs = Vec::new();
+    for p in polls.split('|') {
+        for kv in p.split(',').filter(|x| !x.is_empty()) {
+            let Some((i, v)) = kv.split_once('=') else { return "BADCASE".into() };
+            let (Ok(i), Some(v)) = (i.parse::<usize>(), v.chars().next()) else { return "BADCASE".into() };
+            if i >= n || !"tfx".contains(v) {
+                return "BADCASE".into();
+            }
+            st.lock().unwrap().0[i] = Some(v);
+        }
+        let r = Pin::new(&mut jf).poll(&mut cx);
+        let mut seg: Vec<String> = std::mem::take(&mut st.lock().unwrap().1);
+        match r {
+            Poll::Pending => {
+                seg.push("-".into());
+                segs.push(seg.join(" "));
+            }
+            Poll::Ready(v) => {
+                seg.push(format!("={}", v.into_iter().collect::<String>()));
+                segs.push(seg.join(" "));
+                break;
+            }
+        }
+    }
+    segs.join("|")
+}
+
 fn main() {
     let mode = std::env::args().nth(1).expect("mode");
     let stdin = io::stdin();
@@ -518,6 +585,18 @@ fn main() {
                 writeln!(out, "{}", r).unwrap();
                 out.flush().unwrap();
             }
+        }
+        "join" => {
+            for line in stdin.lock().lines() {
+                let line = line.unwrap();
+                let r = panic::catch_unwind(AssertUnwindSafe(|| join_case(&line))).unwrap_or_else(|_| "HARNESS-PANIC".into());
+                writeln!(out, "{}", r).unwrap();
+                out.flush().unwrap();
+            }
+        }
+        "e2e_child" => {
+            drop(out);
+            e2e::child();
         }
         "e2e" => {
             for line in stdin.lock().lines() {
